@@ -402,6 +402,17 @@ func handleViolation(v *replay, ph phase, scratch string, ev *evidence) int {
 	if err != nil {
 		trouble("%v", err)
 	}
+	if strings.HasPrefix(v.Class, "race:") {
+		// Whether the detector still remembers the earlier of two
+		// conflicting accesses depends on its bounded shadow memory (four
+		// cells per word, evicted at random): one and the same schedule is
+		// reported in most, not in all, executions.  Replay a few times.
+		for try := 0; try < 6 && !core.SameClass(ro.Class, v.Class); try++ {
+			if ro, err = replayFile(ph, scratch, path); err != nil {
+				trouble("%v", err)
+			}
+		}
+	}
 	if !core.SameClass(ro.Class, v.Class) {
 		// Not a function of this run alone.  Either the harness is not
 		// deterministic - or the library keeps state outside its engines
@@ -411,6 +422,21 @@ func handleViolation(v *replay, ph phase, scratch string, ev *evidence) int {
 		// one fresh process.
 		if code, done := processHistoryViolation(v, ph, scratch, path, ev); done {
 			return code
+		}
+		if strings.HasPrefix(v.Class, "race:") {
+			// The report itself is the evidence: the Go race detector has no
+			// false positives, and reports that do not involve the library on
+			// both sides were already sorted out by the worker.  It is
+			// reported although seven replays did not make the detector
+			// speak again; the replay file says so.
+			final := *v
+			final.Shrunk = map[string]any{"replays_that_reproduced_the_report": 0, "replays_tried": 7, "note": "race report kept from the batch run; detection of this race depends on the detector's bounded shadow memory"}
+			fb, _ := json.MarshalIndent(&final, "", " ")
+			os.WriteFile(path, fb, 0o644)
+			ev.violations = 1
+			fmt.Printf("violation class: %s (race report of the batch run; not reproduced by 7 replays of the same schedule)\n%s\n", v.Class, firstN(v.Detail, 4000))
+			fmt.Printf("VIOLATION property=%s replay=%s\n", *fProp, path)
+			return 1
 		}
 		trouble("violation %q of run %d did not reproduce in a fresh process (got %q), neither alone nor after the runs its worker had executed before it: harness nondeterminism, not reported as a violation; file kept at %s", v.Class, v.Run, ro.Class, path)
 	}
